@@ -205,9 +205,9 @@ theorem rotate_members (fl : K → Int) (b : Box K) (U : M3 Int) (atoms : List (
     obtain ⟨hmem, _⟩ := ha'
     simp only [supersizeAtoms, List.mem_map, List.mem_flatMap, List.mem_range] at hmem
     obtain ⟨a0, ⟨r2, h2, r1, h1, r0, h0, a, ha, rfl⟩, rfl⟩ := hmem
-    set f0 := fl (0 - (b.cartToRel ⟨0, 0, 0⟩).x + 1 / ((2 : Int) : K))
-    set f1 := fl (0 - (b.cartToRel ⟨0, 0, 0⟩).y + 1 / ((2 : Int) : K))
-    set f2 := fl (0 - (b.cartToRel ⟨0, 0, 0⟩).z + 1 / ((2 : Int) : K))
+    set f0 := rintK fl (0 - (b.cartToRel ⟨0, 0, 0⟩).x)
+    set f1 := rintK fl (0 - (b.cartToRel ⟨0, 0, 0⟩).y)
+    set f2 := rintK fl (0 - (b.cartToRel ⟨0, 0, 0⟩).z)
     refine ⟨a, ha, ⟨(r0 : Int) + (rotateSizes U).1.lo - f0, (r1 : Int) + (rotateSizes U).2.1.lo - f1,
       (r2 : Int) + (rotateSizes U).2.2.lo - f2⟩, rfl, rfl, ?_⟩
     have pos_of_lt : ∀ (s : Size) (r : Nat), r < s.mult.toNat → ((s.mult : Int) : K) ≠ 0 := by
